@@ -701,6 +701,8 @@ class SpecMixin(object):
                 ty = self.field_info(key[0], key[1])[1]
                 st = self.havoc_key(st, key, ty)
             for g in sorted(self.spec.ghosts):
+                if g in self.spec.local_ghosts:
+                    continue        # invocation-local audit counter: only the owner's ghost_at writes it
                 st = st.copy()
                 st.ghost[g] = fresh(self.spec.ghosts[g], 'G.' + g)
                 st = st.assume(*self.wf_value_facts(st.ghost[g]))
@@ -821,6 +823,23 @@ class SpecMixin(object):
             env[n] = cv
         return st, env
 
+    def check_call_requires(self, st, c, env, node, wrap=None):
+        """call-site obligations the CALLER's contract attaches to calls of this callee (call_requires)"""
+        cur = getattr(self, 'contract', None)
+        if cur is None or not cur.call_requires:
+            return
+        short = c.qual.split(':')[-1].split('.')[-1]
+        for name, r in cur.call_requires.get(short, []):
+            s2 = st.copy()
+            s2.env = dict(st.env)
+            for k, v in env.items():
+                s2.env['arg_' + k] = v
+            cond = self.spb(r, s2, +1)
+            if wrap is not None:
+                cond = wrap(cond)
+            self.add_vc('callsite[%s]:%s@%s' % (name, short, getattr(node, 'lineno', '?')), 'pre', st, cond,
+                        node, note=r)
+
     def call_contract(self, st, c, args, kw, node, recv=None, star=None):
         self.used_contracts.add(c.qual)
         self.use_axioms(c)
@@ -842,6 +861,7 @@ class SpecMixin(object):
             if c.ret is not None and c.ret != NONE:
                 val = self.coerce(val, c.ret) or val
             return self.ok(st, val)
+        self.check_call_requires(st, c, env, node)
         # preconditions
         for i, r in enumerate(c.requires):
             cond = self.spb(r, pre, +1)
@@ -851,6 +871,12 @@ class SpecMixin(object):
                 st = st.assume(cond)
                 pre = pre.assume(cond)
         out = []
+        # a call evaluated under a binder (comprehension element): its result is a function of the bound index,
+        # and it must not have effects
+        binders = list(getattr(self, 'binder_stack', ()))
+        if binders and (c.modifies or any(c.raises.values()) or c.raises):
+            if c.modifies:
+                self.oos('call of %s (which modifies state) inside a comprehension' % c.qual, node)
         # ---- normal return
         mods = self.parse_mods(c.modifies, pre, node)
         post = self.apply_havoc(pre, mods)
@@ -860,10 +886,10 @@ class SpecMixin(object):
         if ret_ty is None or ret_ty == NONE:
             result = mk_none()
         elif isinstance(ret_ty, TTuple):
-            result = self.mk_tuple([fresh(t, 'ret%d_%s' % (k, c.qual.split(':')[-1].split('.')[-1]))
+            result = self.mk_tuple([fresh_dep(t, 'ret%d_%s' % (k, c.qual.split(':')[-1].split('.')[-1]), binders)
                                     for k, t in enumerate(ret_ty.elems)])
         else:
-            result = fresh(ret_ty, 'ret_' + c.qual.split(':')[-1].split('.')[-1])
+            result = fresh_dep(ret_ty, 'ret_' + c.qual.split(':')[-1].split('.')[-1], binders)
             if isinstance(ret_ty, TRef):
                 post = post.assume(self.allocated_fact(post, ret_ty.cls, result.z))
         post.env['result'] = result
